@@ -62,7 +62,7 @@ def impl_canonical(rows, plugins=False, via_text=False):
             its = "n"
         else:
             def num(x):
-                return "n" if x is None else str(int(x))
+                return "n" if x is None else core.optint(int(x))
             its = ";".join("%s:%s" % (num(a), num(b)) for a, b in items) or "~"
         stem = type(f).__name__[:-len("FieldFormat")]
         rule = "-" if stem == "Decimal" else enc(f.rule)
@@ -321,6 +321,8 @@ def defects(rnd, rows, info):
         yield "untokenizable-type", with_row(i, mod(5, "Te'xt")), i
         yield "untokenizable-length", with_row(i, mod(4, "'1")), i
         yield "malformed-length", with_row(i, mod(4, "3...1")), i
+        # the length counts characters, also for a Decimal field
+        yield "fractional-decimal-length", with_row(i, [rows[i][0], rows[i][1], "", "", "2.5" if fmt == "fixed" else "1.5...3.7", "Decimal", ""]), i
         yield "negative-length", with_row(i, mod(4, "-2") if fmt == "fixed" else mod(4, "-2...")), i
         if fmt != "fixed":
             # no lower limit, negative upper limit
